@@ -452,6 +452,13 @@ def judge_common(I, o, f, info, destroyed=None):
 
 def report(run, rule, subject, f, disc, problems, undecided, okmsg, split=True):
     """One obligation per problem class (so that known findings can be keyed precisely)."""
+    # a finding whose text depends on a symbol standing for lost precision (a widened loop value, a havoc'd read) rather than on
+    # the inputs of the scenario is not a witness: it is reported as undecided
+    from .common import abstract_atoms
+    soft = [p for p in problems if abstract_atoms(p[1])]
+    if soft:
+        problems = [p for p in problems if not abstract_atoms(p[1])]
+        undecided = list(undecided) + ['%s (depends on an abstracted value, not a witness)' % p[1][:160] for p in soft[:2]]
     if problems:
         for key in sorted(set(p[0] for p in problems)):
             msgs = [p[1] for p in problems if p[0] == key]
